@@ -81,6 +81,23 @@ DEFS = {
         "components": {"real": ["MultiUserChannelMatrix", "MultiUserChannelMatrixExtInt", "util.conversion.single_matrix_to_matrix_of_matrices", "randn_c_RS"],
                        "fake": ["operation scheduler", "seeds of the channel/noise RandomStates (public set_channel_seed/set_noise_seed)"], "stub_or_not_run": []},
     },
+    "C10": {
+        "module": "worlds.c10", "level": "exploration",
+        "stages": {
+            "quick": [{"name": "solver histories", "n": 6000, "wall": 50, "opts": {"chunk": 20}}],
+            "thorough": [{"name": "solver histories", "n": 600000, "wall": 840, "opts": {"chunk": 50}}],
+        },
+        "rule": ("plan = one solver (closed form, alternating minimisation, minimum leakage, max SINR, MMSE) on a seeded K=2-4 user channel (closed form: K=3, Ns=N/2), unequal antennas, "
+                 "1..min(Nr,Nt)-1 streams, initialisation mode, 1-60 iterations, scalar/vector/default power, and 2-12 operations from solve / randomizeF / set_precoders(F|full_F[,P]) / "
+                 "set_receive_filters(W|W_H) / P= / clear / reads of the derived quantities (reads populate caches). While solve runs, _step is wrapped on the instance and the leaked "
+                 "interference is recorded after every iteration. No fault kinds exist for this property. distinct = distinct event-log digests; non-trivial = at least one solve and two operations"),
+        "assumptions": ["the channel is fixed within a plan; the stream configuration is fixed within a plan so that precoders and filters set through the setters stay dimensionally consistent",
+                        "identity of the compensated direct channel is checked with tolerance 1e-8*cond and skipped (counted) when cond > 1e8, i.e. where the statement says 'defined'",
+                        "monotone leakage is only asserted for alternating minimisation and minimum leakage with equal powers and no noise, as stated",
+                        "every RandomState reachable from the solver object (incl. nested helper solvers) is re-seeded through a private attribute walk: a documented read-only seam"],
+        "components": {"real": ["pyphysim.ia.iabase.IASolverBaseClass", "ClosedFormIASolver, AlternatingMinIASolver, MinLeakageIASolver, MaxSinrIASolver, MMSEIASolver", "MultiUserChannelMatrix"],
+                       "fake": ["operation scheduler", "RandomState seeds"], "stub_or_not_run": ["GreedStreamIASolver, BruteForceStreamIASolver (not anchored by the property)"]},
+    },
 }
 
 
